@@ -306,4 +306,94 @@ narrow!(nsv_mod_ii16, Mod, small_i, small_i);
 // finish (two IEEE dividers, 300 s / 600 s): the VALUE of float division is outside the claim;
 // type and no-panic are decided at full width by ns_divide_{ff,fi,if,...}.
 
+// ---- string operands (C07): concatenation, equality, containment ------------------
+// Operand strings have CONCRETE lengths and symbolic printable-ASCII contents (a symbolic
+// length would make every String allocation symbolic: DESIGN E4/E15).
+fn str_obj(bytes: &[u8]) -> Rc<dyn RTObject> {
+    let mut i = 0;
+    while i < bytes.len() {
+        kani::assume(bytes[i] >= 0x20 && bytes[i] < 0x7f);
+        i += 1;
+    }
+    // SAFETY: printable ASCII
+    let s = unsafe { std::str::from_utf8_unchecked(bytes) };
+    Rc::new(Value::new::<&str>(s))
+}
+fn result_str(o: &Rc<dyn RTObject>) -> Option<&[u8]> {
+    Value::get_value::<&crate::value_type::StringValue>(o.as_ref()).map(|s| s.string.as_bytes())
+}
+
+#[kani::proof]
+#[kani::unwind(8)]
+#[kani::stub(alloc::fmt::format, stub_format)]
+fn nss_concat_1_2() {
+    let a: [u8; 1] = kani::any();
+    let b: [u8; 2] = kani::any();
+    let r = NativeFunctionCall::new(Op::Add).call(vec![str_obj(&a), str_obj(&b)]);
+    match &r {
+        Ok(o) => {
+            kani::cover!(true, "returned Ok");
+            let got = result_str(o);
+            assert!(got.is_some(), "C07: string + string must yield a string");
+            let got = got.unwrap();
+            assert!(got.len() == 3 && got[0] == a[0] && got[1] == b[0] && got[2] == b[1], "C07: string concatenation differs from left followed by right");
+        }
+        Err(_) => assert!(false, "C07: string + string returned Err"),
+    }
+    std::mem::forget(r);
+}
+
+fn str_equal(ne: bool) {
+    let a: [u8; 2] = kani::any();
+    let b: [u8; 2] = kani::any();
+    let r = NativeFunctionCall::new(if ne { Op::NotEquals } else { Op::Equal }).call(vec![str_obj(&a), str_obj(&b)]);
+    let same = a[0] == b[0] && a[1] == b[1];
+    match &r {
+        Ok(o) => {
+            kani::cover!(same, "must: equal strings");
+            kani::cover!(!same, "must: different strings");
+            assert!(Value::get_bool_value(o.as_ref()) == Some(same != ne), "C07: string == / != differs from byte-wise equality");
+        }
+        Err(_) => assert!(false, "C07: string == string returned Err"),
+    }
+    std::mem::forget(r);
+}
+
+#[kani::proof]
+#[kani::unwind(8)]
+#[kani::stub(alloc::fmt::format, stub_format)]
+fn nss_equal_2_2() {
+    str_equal(false);
+}
+
+#[kani::proof]
+#[kani::unwind(8)]
+#[kani::stub(alloc::fmt::format, stub_format)]
+fn nss_not_equals_2_2() {
+    str_equal(true);
+}
+
+fn str_has(neg: bool) {
+    let a: [u8; 2] = kani::any();
+    let b: [u8; 1] = kani::any();
+    let r = NativeFunctionCall::new(if neg { Op::Hasnt } else { Op::Has }).call(vec![str_obj(&a), str_obj(&b)]);
+    let contains = a[0] == b[0] || a[1] == b[0];
+    match &r {
+        Ok(o) => {
+            kani::cover!(contains, "must: contained");
+            kani::cover!(!contains, "must: not contained");
+            assert!(Value::get_bool_value(o.as_ref()) == Some(contains != neg), "C07: string ? / !? differs from substring containment");
+        }
+        Err(_) => assert!(false, "C07: string ? string returned Err"),
+    }
+    std::mem::forget(r);
+}
+
+#[kani::proof]
+#[kani::unwind(8)]
+#[kani::stub(alloc::fmt::format, stub_format)]
+fn nss_has_2_1() {
+    str_has(false);
+}
+
 include!("native_scalar_instances.rs");
